@@ -1,4 +1,5 @@
 pub mod ev;
+pub mod faulty;
 pub mod hist;
 pub mod world;
 
